@@ -1,7 +1,405 @@
 package main
 
-// Replay of counterexamples against the real code (go test -overlay). Filled in per input shape.
+// Replay of counterexamples against the real code through `go test -overlay` (nothing is written into the repo).
+//
+// Concretiser scope: functions and methods all of whose inputs (parameters, and the receiver when it is a scalar)
+// are integers, booleans, floats or strings. The solver's model supplies the values; the function is called
+// for real; the contract's `requires` must hold for the input and every `ensures` clause that compiles to Go
+// is evaluated on the real result. Anything else (heap-shaped inputs, quantified clauses) is reported as
+// "no concretiser" and the VIOLATION line keeps its no-failing-input-found suffix.
+
+import (
+	"encoding/json"
+	"fmt"
+	"go/types"
+	"math/big"
+	"os"
+	"os/exec"
+	"path/filepath"
+	"regexp"
+	"strings"
+)
+
+// ---- s-expression model parsing ----
+
+type sx struct {
+	atom string
+	list []*sx
+}
+
+func parseSx(s string) []*sx {
+	var toks []string
+	cur := strings.Builder{}
+	flush := func() {
+		if cur.Len() > 0 {
+			toks = append(toks, cur.String())
+			cur.Reset()
+		}
+	}
+	inBar := false
+	for _, r := range s {
+		switch {
+		case inBar:
+			cur.WriteRune(r)
+			if r == '|' {
+				inBar = false
+			}
+		case r == '|':
+			cur.WriteRune(r)
+			inBar = true
+		case r == '(' || r == ')':
+			flush()
+			toks = append(toks, string(r))
+		case r == ' ' || r == '\n' || r == '\t' || r == '\r':
+			flush()
+		default:
+			cur.WriteRune(r)
+		}
+	}
+	flush()
+	pos := 0
+	var rd func() *sx
+	rd = func() *sx {
+		if pos >= len(toks) {
+			return nil
+		}
+		t := toks[pos]
+		pos++
+		if t == "(" {
+			n := &sx{}
+			for pos < len(toks) && toks[pos] != ")" {
+				n.list = append(n.list, rd())
+			}
+			pos++
+			return n
+		}
+		return &sx{atom: t}
+	}
+	var out []*sx
+	for pos < len(toks) {
+		if x := rd(); x != nil {
+			out = append(out, x)
+		}
+	}
+	return out
+}
+
+func sxNum(x *sx) (*big.Rat, bool) {
+	if x == nil {
+		return nil, false
+	}
+	if x.atom != "" {
+		r, ok := new(big.Rat).SetString(x.atom)
+		return r, ok
+	}
+	if len(x.list) == 2 && x.list[0].atom == "-" {
+		r, ok := sxNum(x.list[1])
+		if !ok {
+			return nil, false
+		}
+		return r.Neg(r), true
+	}
+	if len(x.list) == 3 && x.list[0].atom == "/" {
+		a, ok1 := sxNum(x.list[1])
+		b, ok2 := sxNum(x.list[2])
+		if !ok1 || !ok2 || b.Sign() == 0 {
+			return nil, false
+		}
+		return a.Quo(a, b), true
+	}
+	return nil, false
+}
+
+// modelValues extracts nullary definitions of a z3/cvc5 model.
+func modelValues(model string) map[string]*sx {
+	out := map[string]*sx{}
+	var walk func(x *sx)
+	walk = func(x *sx) {
+		if x == nil {
+			return
+		}
+		if len(x.list) == 5 && x.list[0].atom == "define-fun" && x.list[2].atom == "" && len(x.list[2].list) == 0 {
+			out[strings.Trim(x.list[1].atom, "|")] = x.list[4]
+			return
+		}
+		for _, c := range x.list {
+			walk(c)
+		}
+	}
+	for _, x := range parseSx(model) {
+		walk(x)
+	}
+	return out
+}
+
+// ---- spec expression -> Go ----
+
+type goComp struct {
+	params map[string]bool
+	ok     bool
+	why    string
+}
+
+func (g *goComp) fail(why string) string {
+	if g.ok {
+		g.ok = false
+		g.why = why
+	}
+	return "false"
+}
+
+func (g *goComp) expr(e *SExpr) string {
+	switch e.Op {
+	case "int":
+		return e.Name
+	case "float":
+		return e.Name
+	case "str":
+		return fmt.Sprintf("%q", e.Name)
+	case "id":
+		switch e.Name {
+		case "result", "result0":
+			return "verifResult0"
+		case "true", "false":
+			return e.Name
+		}
+		if strings.HasPrefix(e.Name, "result") {
+			return "verifResult" + strings.TrimPrefix(e.Name, "result")
+		}
+		if strings.HasPrefix(e.Name, "$") {
+			return g.fail("ghost identifier " + e.Name)
+		}
+		return e.Name // parameter or package-level constant/variable: valid in-package Go
+	case "unary":
+		if e.Name == "*" {
+			return g.fail("type expression")
+		}
+		return "(" + e.Name + g.expr(e.Args[0]) + ")"
+	case "binary":
+		a, b := g.expr(e.Args[0]), g.expr(e.Args[1])
+		switch e.Name {
+		case "==>":
+			return "(!(" + a + ") || (" + b + "))"
+		case "<==>":
+			return "((" + a + ") == (" + b + "))"
+		}
+		return "(" + a + " " + e.Name + " " + b + ")"
+	case "cond":
+		return "verifIte(" + g.expr(e.Args[0]) + ", " + g.expr(e.Args[1]) + ", " + g.expr(e.Args[2]) + ")"
+	case "call":
+		if e.Args[0].Op == "id" {
+			var as []string
+			for _, a := range e.Args[1:] {
+				as = append(as, g.expr(a))
+			}
+			switch e.Args[0].Name {
+			case "max":
+				return "verifMax(" + strings.Join(as, ", ") + ")"
+			case "min":
+				return "verifMin(" + strings.Join(as, ", ") + ")"
+			case "max0":
+				return "verifMax(" + as[0] + ", 0)"
+			case "abs":
+				return "verifMax(" + as[0] + ", -(" + as[0] + "))"
+			case "tdiv":
+				return "((" + as[0] + ") / (" + as[1] + "))"
+			case "int64", "int", "int32", "float64":
+				return e.Args[0].Name + "(" + as[0] + ")"
+			}
+		}
+		return g.fail("call " + e.Args[0].String())
+	}
+	return g.fail("expression " + e.Op)
+}
+
+func scalarGoLit(t types.Type, x *sx) (string, bool) {
+	b, ok := types.Unalias(t).Underlying().(*types.Basic)
+	if !ok {
+		return "", false
+	}
+	tn := types.TypeString(t, func(p *types.Package) string { return "" })
+	tn = strings.TrimPrefix(tn, ".")
+	switch {
+	case b.Info()&types.IsBoolean != 0:
+		if x.atom == "true" || x.atom == "false" {
+			return tn + "(" + x.atom + ")", true
+		}
+	case b.Info()&types.IsInteger != 0:
+		if r, ok := sxNum(x); ok && r.IsInt() {
+			return tn + "(" + r.Num().String() + ")", true
+		}
+	case b.Info()&types.IsFloat != 0:
+		if r, ok := sxNum(x); ok {
+			f, _ := r.Float64()
+			return fmt.Sprintf("%s(%v)", tn, f), true
+		}
+	}
+	return "", false
+}
 
 func tryReplay(r *propRun, eng *Engine, v *Verdict, model string, rec map[string]interface{}) (bool, string) {
-	return false, "no concretiser for this obligation's input shape"
+	fn := eng.funcsByKey[v.FuncKey]
+	con := eng.contracts[v.FuncKey]
+	if fn == nil || con == nil || fn.Pkg == nil {
+		return false, "no concretiser for this obligation's input shape"
+	}
+	if fn.Signature.Recv() != nil || fn.Parent() != nil {
+		return false, "no concretiser: methods and closures take heap-shaped inputs"
+	}
+	vals := modelValues(model)
+	var args []string
+	inputs := map[string]string{}
+	for _, p := range fn.Params {
+		var found *sx
+		prefix := "p_" + sanitize(p.Name()) + "!"
+		for k, x := range vals {
+			if strings.HasPrefix(k, prefix) {
+				found = x
+			}
+		}
+		if found == nil {
+			// unconstrained input: any value
+			found = &sx{atom: "0"}
+			if b, ok := types.Unalias(p.Type()).Underlying().(*types.Basic); ok && b.Info()&types.IsBoolean != 0 {
+				found = &sx{atom: "false"}
+			}
+		}
+		lit, ok := scalarGoLit(p.Type(), found)
+		if !ok {
+			return false, fmt.Sprintf("no concretiser: parameter %s of type %s is not a scalar", p.Name(), p.Type())
+		}
+		args = append(args, lit)
+		inputs[p.Name()] = lit
+	}
+	pkgPath := fn.Pkg.Pkg.Path()
+	rel := strings.TrimPrefix(pkgPath, eng.module+"/")
+	g := &goComp{ok: true}
+	var sb strings.Builder
+	fmt.Fprintf(&sb, "package %s\n\nimport \"testing\"\n\n", fn.Pkg.Pkg.Name())
+	sb.WriteString("func verifIte[T any](c bool, a, b T) T { if c { return a }; return b }\n")
+	sb.WriteString("func verifMax[T int | int32 | int64 | uint | uint32 | uint64 | float64](a, b T) T { if a > b { return a }; return b }\n")
+	sb.WriteString("func verifMin[T int | int32 | int64 | uint | uint32 | uint64 | float64](a, b T) T { if a < b { return a }; return b }\n\n")
+	fmt.Fprintf(&sb, "// replay of %s\nfunc TestVerifReplay(t *testing.T) {\n", v.Name)
+	for i, p := range fn.Params {
+		fmt.Fprintf(&sb, "\t%s := %s\n\t_ = %s\n", p.Name(), args[i], p.Name())
+	}
+	for i, c := range con.Requires {
+		g2 := &goComp{ok: true}
+		code := g2.expr(c.E)
+		if g2.ok {
+			fmt.Fprintf(&sb, "\tif !(%s) { t.Skipf(\"REPLAY-SKIP requires#%d does not hold for the model input\") }\n", code, i+1)
+		}
+	}
+	sb.WriteString("\tdefer func() {\n\t\tif p := recover(); p != nil {\n\t\t\tt.Fatalf(\"REPLAY-FAIL nopanic: the real function panicked: %v\", p)\n\t\t}\n\t}()\n")
+	nres := fn.Signature.Results().Len()
+	var rs []string
+	for i := 0; i < nres; i++ {
+		rs = append(rs, fmt.Sprintf("verifResult%d", i))
+	}
+	call := fmt.Sprintf("%s(%s)", fn.Name(), strings.Join(func() []string {
+		var ns []string
+		for _, p := range fn.Params {
+			ns = append(ns, p.Name())
+		}
+		return ns
+	}(), ", "))
+	if nres > 0 {
+		fmt.Fprintf(&sb, "\t%s := %s\n", strings.Join(rs, ", "), call)
+		for _, x := range rs {
+			fmt.Fprintf(&sb, "\t_ = %s\n", x)
+		}
+		if nres == 1 && fn.Signature.Results().At(0).Name() != "" {
+			fmt.Fprintf(&sb, "\t%s := verifResult0\n\t_ = %s\n", fn.Signature.Results().At(0).Name(), fn.Signature.Results().At(0).Name())
+		}
+	} else {
+		fmt.Fprintf(&sb, "\t%s\n", call)
+	}
+	compiled := 0
+	for i, c := range con.Ensures {
+		g2 := &goComp{ok: true}
+		code := g2.expr(c.E)
+		if !g2.ok {
+			g.why = g2.why
+			continue
+		}
+		compiled++
+		fmt.Fprintf(&sb, "\tif !(%s) { t.Errorf(\"REPLAY-FAIL ensures#%s violated by the real function: inputs %s\") }\n", code, clauseName(c, i), strings.ReplaceAll(fmt.Sprint(inputs), "\"", "'"))
+	}
+	sb.WriteString("}\n")
+	src := sb.String()
+	rec["replay_test"] = src
+	rec["replay_inputs"] = inputs
+	rec["replay_pkg"] = rel
+	out, failed := runReplayTest(r, rel, src)
+	rec["replay_output"] = truncate(out, 4000)
+	if failed && strings.Contains(out, "REPLAY-FAIL") {
+		return true, fmt.Sprintf("real function called with %v: %s", inputs, firstMatch(out, `REPLAY-FAIL[^\n]*`))
+	}
+	if strings.Contains(out, "REPLAY-SKIP") {
+		return false, "model input does not satisfy the precondition when evaluated concretely"
+	}
+	return false, fmt.Sprintf("replayed %v on the real function: no failure observed (%d ensures clauses evaluated)", inputs, compiled)
+}
+
+func firstMatch(s, re string) string {
+	return regexp.MustCompile(re).FindString(s)
+}
+
+func runReplayTest(r *propRun, relPkg, src string) (string, bool) {
+	dir := filepath.Join(r.verif, ".work", fmt.Sprintf("replay.%d", os.Getpid()))
+	_ = os.MkdirAll(dir, 0o755)
+	defer os.RemoveAll(dir)
+	tf := filepath.Join(dir, "zz_verif_replay_test.go")
+	_ = os.WriteFile(tf, []byte(src), 0o644)
+	ov := map[string]map[string]string{"Replace": {filepath.Join(r.repo, relPkg, "zz_verif_replay_test.go"): tf}}
+	data, _ := json.Marshal(ov)
+	of := filepath.Join(dir, "ov.json")
+	_ = os.WriteFile(of, data, 0o644)
+	cmd := exec.Command("go", "test", "-overlay", of, "-vet=off", "-count=1", "-timeout", "120s", "-run", "^TestVerifReplay$", "./"+relPkg)
+	cmd.Dir = r.repo
+	out, err := cmd.CombinedOutput()
+	return string(out), err != nil
+}
+
+// runReplayCmd re-runs a stored replay file: ./check replay <file>
+func runReplayCmd(args []string) int {
+	if len(args) < 1 {
+		fmt.Println("usage: govc replay <replay.json> [-repo /repo] [-verif /verif]")
+		return 2
+	}
+	data, err := os.ReadFile(args[0])
+	if err != nil {
+		fmt.Println(err)
+		return 2
+	}
+	var rec map[string]interface{}
+	if err := json.Unmarshal(data, &rec); err != nil {
+		fmt.Println(err)
+		return 2
+	}
+	fmt.Printf("obligation: %v\nreason: %v\nsolver: %v answer: %v\nwhere: %v\n", rec["obligation"], rec["reason"], rec["solver"], rec["answer"], rec["where"])
+	src, _ := rec["replay_test"].(string)
+	pkg, _ := rec["replay_pkg"].(string)
+	if src == "" || pkg == "" {
+		fmt.Println("no concrete replay is stored for this obligation (no-failing-input-found); solver output:")
+		fmt.Println(truncate(fmt.Sprint(rec["solver_output"]), 3000))
+		return 1
+	}
+	r := &propRun{repo: "/repo", verif: "/verif"}
+	for i := 1; i+1 < len(args); i += 2 {
+		switch args[i] {
+		case "-repo":
+			r.repo = args[i+1]
+		case "-verif":
+			r.verif = args[i+1]
+		}
+	}
+	out, failed := runReplayTest(r, pkg, src)
+	fmt.Println(out)
+	if failed {
+		fmt.Println("REPLAY: the failure reproduces on the current tree")
+		return 1
+	}
+	fmt.Println("REPLAY: no failure on the current tree")
+	return 0
 }
